@@ -62,11 +62,11 @@ Proof.
       rewrite Em. rewrite andb_true_r.
       destruct (match bl b with SCont => true | SSome l => l <=? n end); [reflexivity|].
       unfold fallback_for. destruct (bfb b) as [fb|]; cbn [opt_unwrap bind].
-      * destruct (gs_join g && negb (blast b))%bool; cbn [app]; rewrite ?app_nil_r, <- ?app_assoc; reflexivity.
+      * destruct (gs_join g), (blast b); cbn [andb negb app]; rewrite ?app_nil_r, <- ?app_assoc; reflexivity.
       * destruct (gs_fallback g) as [fb|]; [|reflexivity].
-        destruct (gs_join g && negb (blast b))%bool; cbn [app]; rewrite ?app_nil_r, <- ?app_assoc; reflexivity.
+        destruct (gs_join g), (blast b); cbn [andb negb app]; rewrite ?app_nil_r, <- ?app_assoc; reflexivity.
     + rewrite andb_false_r. unfold fallback_for. destruct (bfb b) as [fb|]; cbn [opt_unwrap bind].
-      * destruct (gs_join g && negb (blast b))%bool; cbn [app]; rewrite ?app_nil_r, <- ?app_assoc; reflexivity.
+      * destruct (gs_join g), (blast b); cbn [andb negb app]; rewrite ?app_nil_r, <- ?app_assoc; reflexivity.
       * destruct (gs_fallback g) as [fb|]; [|reflexivity].
-        destruct (gs_join g && negb (blast b))%bool; cbn [app]; rewrite ?app_nil_r, <- ?app_assoc; reflexivity.
+        destruct (gs_join g), (blast b); cbn [andb negb app]; rewrite ?app_nil_r, <- ?app_assoc; reflexivity.
 Qed.
